@@ -614,6 +614,7 @@ impl<'a> ProgGen<'a> {
         }
         let inc_names = if *t == GT::Int && self.r.chance(1, 2) { Some((reserve(self, "inc", GT::Opaque, None), reserve(self, "y", GT::Int, None))) } else { None };
         let univ_name = if self.r.chance(1, 4) { Some(reserve(self, "univ", GT::Type, None)) } else { None };
+        let mk_names = if self.r.chance(1, 3) { Some((reserve(self, "mk", GT::Opaque, None), reserve(self, "my", GT::Int, None))) } else { None };
         // optional extra definition after the chain
         let extra = if self.r.chance(1, 2) {
             let ty = self.random_type(1);
@@ -653,6 +654,19 @@ impl<'a> ProgGen<'a> {
             let ann = if self.cfg.mode == Mode::Inferred && self.r.chance(1, 2) { None } else { Some(hb(H::Pi("_".into(), false, hb(a0.clone()), hb(H::Int)))) };
             defs.push((f.clone(), ann, H::Lam(y.clone(), false, Some(hb(a0)), hb(H::Bin(Op::Add, hb(H::Var(y)), hb(H::lit(1)))))));
             body = H::App(hb(H::Var(f)), hb(H::Var(v.clone())));
+        }
+        // a function whose *codomain* is the first alias (whose own type may be an alias of the
+        // universe rather than the literal `type`)
+        if let Some((f, y)) = mk_names {
+            self.feature("alias-as-codomain");
+            let a0 = H::Var(alias_names[0].clone());
+            let ann = if self.cfg.mode == Mode::Inferred && self.r.chance(1, 2) { None } else { Some(hb(H::Pi(if self.r.chance(1, 2) { y.clone() } else { "_".into() }, false, hb(H::Int), hb(a0)))) };
+            defs.push((f.clone(), ann, H::Lam(y, false, Some(hb(H::Int)), hb(H::Var(v.clone())))));
+            let call = H::App(hb(H::Var(f)), hb(H::lit(self.r.below(5) as i64)));
+            body = match body {
+                H::App(inc, _) => H::App(inc, hb(call)),
+                _ => call,
+            };
         }
         // sometimes the aliases are typed by an alias of the universe itself
         if let Some(u) = univ_name {
@@ -700,6 +714,12 @@ impl<'a> ProgGen<'a> {
             Alias(GT),
             AliasedValue(usize), // value whose annotation is the alias defined at that (possibly later) index
             Placeholder(GT),     // `_ = <term>`: occupies a slot of the group, binds nothing
+            // a type family defined by recursion on its index, an identity at that family, a
+            // caller at a neutral index, and a value typed through the family at a literal index
+            PadFam(GT),
+            PadGet,
+            PadUse,
+            PadVal(GT, u8),
         }
         let n = 1 + self.r.usize(4);
         let mut kinds: Vec<Kind> = vec![];
@@ -733,6 +753,13 @@ impl<'a> ProgGen<'a> {
                     let ty = self.random_type(1);
                     kinds.push(Kind::Placeholder(ty));
                 }
+                10 if self.cfg.type_level && self.cfg.recursion && self.r.chance(1, 2) => {
+                    let ty = if self.r.chance(1, 2) { GT::Int } else { GT::Bool };
+                    kinds.push(Kind::PadFam(ty.clone()));
+                    kinds.push(Kind::PadGet);
+                    kinds.push(Kind::PadUse);
+                    kinds.push(Kind::PadVal(ty, self.r.below(4) as u8));
+                }
                 _ => {
                     let ty = self.random_type(2);
                     kinds.push(Kind::Plain(ty));
@@ -757,6 +784,10 @@ impl<'a> ProgGen<'a> {
             let (hint, ty) = match k {
                 Kind::Plain(t) => ("", t.clone()),
                 Kind::Placeholder(t) => ("_", t.clone()),
+                Kind::PadFam(_) => ("pad", GT::Opaque),
+                Kind::PadGet => ("get", GT::Opaque),
+                Kind::PadUse => ("use", GT::Opaque),
+                Kind::PadVal(t, _) => ("padded", t.clone()),
                 Kind::RecFn => ("rec", GT::arrow(GT::Int, GT::Int)),
                 Kind::MutualA => ("even", GT::arrow(GT::Int, GT::Bool)),
                 Kind::MutualB => ("odd", GT::arrow(GT::Int, GT::Bool)),
@@ -800,7 +831,7 @@ impl<'a> ProgGen<'a> {
         // a syntactic value may mention any *function-valued* definition of the group; any other
         // definition may mention earlier definitions and later function-valued ones whose bodies
         // mention only function-valued definitions. Annotations may mention every alias.
-        let is_fn: Vec<bool> = kinds.iter().map(|k| matches!(k, Kind::RecFn | Kind::MutualA | Kind::MutualB | Kind::Poly(_) | Kind::DepFn(_) | Kind::DepCoerce)).collect();
+        let is_fn: Vec<bool> = kinds.iter().map(|k| matches!(k, Kind::RecFn | Kind::MutualA | Kind::MutualB | Kind::Poly(_) | Kind::DepFn(_) | Kind::DepCoerce | Kind::PadFam(_) | Kind::PadGet | Kind::PadUse)).collect();
         let mut defs: Vec<(String, Option<Box<H>>, H)> = vec![];
         for i in 0..n {
             // annotation: every alias of the group is usable there (forward references in types)
@@ -808,7 +839,7 @@ impl<'a> ProgGen<'a> {
                 self.ctx[base + j].usable = matches!(kinds[j], Kind::Alias(_));
             }
             let ann = match &kinds[i] {
-                Kind::DepCoerce => None,
+                Kind::DepCoerce | Kind::PadFam(_) | Kind::PadGet | Kind::PadUse | Kind::PadVal(..) => None,
                 Kind::AliasedValue(j) => {
                     self.feature("forward-type-alias");
                     Some(hb(H::Var(names[*j].clone())))
@@ -872,6 +903,42 @@ impl<'a> ProgGen<'a> {
                     let call = H::App(hb(H::Var(other)), hb(H::Bin(Op::Sub, hb(H::Var(p.clone())), hb(H::lit(1)))));
                     let body = H::If(hb(H::Bin(Op::Le, hb(H::Var(p.clone())), hb(H::lit(0)))), hb(base_val.clone()), hb(H::If(hb(H::Bin(Op::Gt, hb(H::Var(p.clone())), hb(H::lit(40)))), hb(base_val), hb(call))));
                     H::Lam(p, false, Some(hb(H::Int)), hb(body))
+                }
+                Kind::PadFam(_) | Kind::PadGet | Kind::PadUse | Kind::PadVal(..) => {
+                    self.feature("recursive-type-family");
+                    // locate the family's four names
+                    let f0 = (0..=i).rev().find(|j| matches!(kinds[*j], Kind::PadFam(_))).unwrap_or(i);
+                    let (pad, get, usef) = (names[f0].clone(), names[f0 + 1].clone(), names[f0 + 2].clone());
+                    let var = |x: &str| H::Var(x.to_owned());
+                    let app = |f: H, a: H| H::App(hb(f), hb(a));
+                    let inferred = self.cfg.mode == Mode::Inferred;
+                    let (ann, def) = match &kinds[i] {
+                        Kind::PadFam(t) => {
+                            let n = self.fresh_name("n");
+                            let body = H::If(hb(H::Bin(Op::Le, hb(var(&n)), hb(H::lit(0)))), hb(type_to_h(t)), hb(app(var(&pad), H::Bin(Op::Sub, hb(var(&n)), hb(H::lit(1))))));
+                            (H::Pi("_".into(), false, hb(H::Int), hb(H::Type)), H::Lam(n, false, Some(hb(H::Int)), hb(body)))
+                        }
+                        Kind::PadGet | Kind::PadUse => {
+                            let n = self.fresh_name(if matches!(kinds[i], Kind::PadGet) { "n" } else { "m" });
+                            self.ctx.push(Entry { name: n.clone(), ty: GT::Int, alias_of: None, usable: false, recursive_fn: false });
+                            let x = self.fresh_name("");
+                            self.ctx.pop();
+                            let fam = app(var(&pad), var(&n));
+                            let body = if matches!(kinds[i], Kind::PadGet) { var(&x) } else { app(app(var(&get), var(&n)), var(&x)) };
+                            let dom = if inferred && self.r.chance(1, 3) { None } else { Some(hb(fam.clone())) };
+                            (H::Pi(n.clone(), false, hb(H::Int), hb(H::Pi("_".into(), false, hb(fam.clone()), hb(fam)))), H::Lam(n, false, Some(hb(H::Int)), hb(H::Lam(x, false, dom, hb(body)))))
+                        }
+                        Kind::PadVal(t, k) => {
+                            let k = H::lit(i64::from(*k));
+                            let v = self.leaf(&t.clone());
+                            let caller = if self.r.chance(1, 2) { var(&usef) } else { var(&get) };
+                            (app(var(&pad), k.clone()), app(app(caller, k), v))
+                        }
+                        _ => unreachable!(),
+                    };
+                    let ann = if inferred && !matches!(kinds[i], Kind::PadFam(_)) && self.r.chance(1, 4) { None } else { Some(hb(ann)) };
+                    defs.push((names[i].clone(), ann, def));
+                    continue;
                 }
                 Kind::DepCoerce => {
                     self.feature("dependent-coercion-with-stuck-index");
